@@ -20,14 +20,15 @@ ASSUMPTIONS = ["n < 2^31", "for buffers with a tag outside the 17 known ones or 
 TECHNIQUE = ("Coq proofs about a model of the length/validity functions with the code's 32-bit unsigned arithmetic and "
              "option-returning readers + differential correspondence on exhaustive short buffers and structure-aware "
              "mutations under ASan with a watchdog")
-LEVEL_TEXT = ("Theorems in coq/Properties_C07.v for an ARBITRARY byte list (no size bound other than n < 2^32-16): "
-              "rtosc_message_length / the two-segment ring length / rtosc_valid_message_p never read outside the n bytes, "
-              "terminate within their fuel and report 0 or a length <= n (full). The clause 'accepted buffers are safe for "
-              "every accessor and decode like an independent decoder' is PARTIAL: proved for every canonical encoding "
-              "(C07_valid_safe_partial); for accepted non-canonical buffers it rests on the correspondence run (exhaustive "
-              "short buffers + structure-aware mutations under ASan with a watchdog) and on the independent Python decoder "
-              "evaluated on everything the implementation accepts. Witnesses of the three repaired defects are kept as "
-              "_refuted theorems about the pinned functions.")
+LEVEL_TEXT = ("Theorems in coq/Properties_C07.v for an ARBITRARY byte list: rtosc_message_length / the two-segment ring "
+              "length / rtosc_valid_message_p never read outside the n bytes, terminate within their fuel and report 0 or a "
+              "length <= n (n < 2^32-16); whenever the validity predicate accepts a buffer (n < 2^27) every accessor - "
+              "argument string, count, type/argument by index, iterator - reads only inside it and the string/blob payloads "
+              "they designate lie inside it (C07_valid_safe, by an inversion of the accepted length walk). PARTIAL only in the "
+              "last clause: 'equals an independent decoder' is proved for canonical encodings (inverse of the OSC 1.0 encoder) "
+              "and for the mutual agreement of iterator / by-index / count on every accepted buffer; on accepted non-canonical "
+              "buffers the independent Python decoder evaluated in the correspondence run is the oracle. Witnesses of the "
+              "repaired defects are kept as _refuted theorems about the pinned functions.")
 LEVEL_NOTE = ("Trusted: Coq kernel, extraction, driver, harness, ASan, generator, Python decoder. The C code is modelled by hand "
               "(coq/Osc/OscModel.v) with explicit mod-2^32 arithmetic.")
 
